@@ -33,9 +33,15 @@ def build(ctx):
                    ('R10', r'\}\s*$', '  return states_size;\n}', 1)])
     impl = r.function(PS, r'void\s+parallel_for_staticImpl\s*\([^)]*\)')
     sl = X.slice_between(impl, r'size_type\s+chunkIdx\s*=\s*static_cast<size_type>\(idx\);', r'return\s*\[it = stateIt, start, end, f\]')
+    import re as _re
+    aliases = _re.findall(r'auto\s+(\w+)\s*=\s*states\.begin\(\)\s*;', impl.text)
+    begin_alias = '|'.join(a for a in aliases if a != 'stateIt') or 'states\\.begin\\(\\)'
     ctx.emit('psi_remap.slice.inc', sl, must_fire=['R2', 'R12'],
              subs=[('R13', r'auto\s+chunkBounds\s*=\s*chunkRange\(chunkIdx\);\s*IntegerT\s+start\s*=\s*chunkBounds\.first;\s*IntegerT\s+end\s*=\s*chunkBounds\.second;', '/* chunk bounds: C17 units */', 1),
-                   ('R12', r'auto\s+stateIt\s*=\s*states\.begin\(\);\s*std::advance\(stateIt,\s*static_cast<ptrdiff_t>\(chunkIdx\)\);', 'size_type stateAdvance = ((size_type)(((ptrdiff_t)(chunkIdx))));', 1)])
+                   # the state iterator starts at states.begin() (directly, or through a local initialised from it) and is advanced by
+                   # whatever expression the code passes to std::advance: that expression is what the contract constrains
+                   ('R12', r'auto\s+stateIt\s*=\s*(states\.begin\(\)|%s)\s*;' % begin_alias, '/* stateIt = states.begin() */', 1),
+                   ('R12', r'std::advance\(stateIt,\s*static_cast<ptrdiff_t>\(([^();]+)\)\);', r'size_type stateAdvance = ((size_type)(((ptrdiff_t)(\1))));', 1)])
     sl = X.slice_between(impl, r'size_type\s+callerChunk\s*=\s*numThreads\s*-\s*1;', r'size_type\s+numToSchedule\s*=')
     ctx.emit('psi_callerChunk.slice.inc', sl, must_fire=['R2'])
     units = []
